@@ -62,6 +62,22 @@ def empty_strs():
     return []
 
 
+def strs_none():
+    return frozenset()
+
+
+def strs_add(s, x):
+    return frozenset(s) | {x}
+
+
+def strs_remove(s, x):
+    return frozenset(s) - {x}
+
+
+def in_strs(x, s):
+    return x in s
+
+
 def seq_update(xs, i, x):
     ys = list(xs)
     ys[i] = x
